@@ -154,6 +154,17 @@ def gen_case(rng, tier, avoid):
             bop = gen.rejected_assignment(rng, ops[:pos])
             if bop:
                 ops.insert(pos, bop)
+    if rng.random() < 0.15:
+        # the caller has seeded numpy's global random state; an add_origin that is rejected must not draw from it: the default
+        # FILE-SET-NUMBER of the origin added next is the one it would have got without the rejected call
+        pos = rng.randint(3, len(ops))
+        ops[pos:pos] = [
+            {'op': 'seed_rng', 'seed': rng.randrange(1 << 30), 'c': 0},
+            {'op': 'add', 'lf': lfi['lf'], 'kind': 'origin', 'h': 'bad_rng_origin', 'name': 'REJECTED-ORIGIN', 'c': 0,
+             'bad': 'origin_rejected_after_seed', 'rng_keep': True,
+             'kwargs': rng.choice([{'creation_time': 'garbage'}, {'origin_reference': 'x'}, {'file_type': 12}])},
+            {'op': 'add', 'lf': lfi['lf'], 'kind': 'origin', 'h': 'o_after_rng', 'name': 'ORIGIN-AFTER', 'c': 0, 'rng_keep': True,
+             'kwargs': {'creation_time': {'$dt': '2020-03-04T05:06:07', 'tz': None}}}]
     mode = rng.choice(['plain', 'io_fault', 'io_fault', 'interrupt', 'data_error'])
     ext = None
     if rng.random() < 0.25 and mode != 'data_error':
